@@ -320,6 +320,14 @@ func I5(rc *RC) {
 	if len(rets) == 0 {
 		bad = append(bad, "no return")
 	}
+	// every element gets its own 8-byte window of the buffer
+	if put := regexp.MustCompile(`PutUint64\((%\w+)\[([^\]]*)\], uint64\(\$in\[(%\w+)\]\)\)`).FindStringSubmatch(txt); put != nil {
+		i := put[3]
+		ok := put[2] == "("+i+" * 8):(("+i+" * 8) + 8)" || put[2] == "(8 * "+i+"):((8 * "+i+") + 8)"
+		if !ok {
+			bad = append(bad, "element "+i+" is written to the byte window ["+put[2]+"], not [8i, 8i+8): windows overlap and high bytes of the strides are lost")
+		}
+	}
 	if len(bad) > 0 {
 		rc.S.Viol("I5", key, pos, strings.Join(bad, "; ")).Sig = strings.Join(bad, "; ")
 	} else {
